@@ -154,6 +154,9 @@ func makeApology(ev abcitypes.Event, height int64) (*Apology, error) {
 		e.SetBytes(b)
 		polyEval = append(polyEval, e)
 	}
+	if len(polyEval) != len(accusers) {
+		return nil, errors.Errorf("expected %d poly evals, got %d", len(accusers), len(polyEval))
+	}
 	return &Apology{
 		Height:   height,
 		Sender:   sender,
@@ -484,6 +487,9 @@ func makePolyEval(ev abcitypes.Event, height int64) (*PolyEval, error) {
 	encryptedEvals, err := decodeByteSequence(ev.Attributes[3].Value)
 	if err != nil {
 		return nil, err
+	}
+	if len(encryptedEvals) != len(receivers) {
+		return nil, errors.Errorf("expected %d encrypted evals, got %d", len(receivers), len(encryptedEvals))
 	}
 
 	return &PolyEval{
